@@ -17,7 +17,8 @@ warnings.simplefilter('ignore')
 # root dict: two slots keyed (K0, 'b'); each slot: 0 absent 1 leaf 2 {} 3 dict with
 # two sub-slots keyed ('a', 'c'); sub-slot: 0 absent 1 leaf 2 {} 3 {'x': leaf}
 # 4 {'x': {}}.  K0 is drawn symbolically from KPOOL (contains the separator).
-KPOOL = ['a', 'b', '0', 'a/c', '/', '']    # '0': a purely numeric string key
+KPOOL = ['a', 'b', '0', '_p', 'w_', 'a/c', '/', '']    # '0': purely numeric; '_p' /
+# 'w_' begin / end with a character of the multi-character separator '__'
 
 
 def _sub(kind, leaf):
@@ -110,11 +111,12 @@ def roundtrip(api, sepmode, r0, r1, s00, s01, s10, s11, k0, keep, cut, v):
   removal without), flatten(t) == reference {full path: leaf}, input untouched."""
   t = build(r0, r1, s00, s01, s10, s11, k0, v)
   orig = build(r0, r1, s00, s01, s10, s11, k0, v)
-  sep = '/' if sepmode else None
-  if sep is not None and (KPOOL[k0] not in ('a', 'b', '0')) and r0 != 0:
+  sep = pick([None, '/', '__'], sepmode)
+  if sep is not None and sep in KPOOL[k0] and r0 != 0:
     raise Reject()  # documented precondition: separator does not occur in keys
-  if sep is not None and KPOOL[k0] == '' and r0 != 0:
-    raise Reject()
+  if sep == '__' and KPOOL[k0].endswith('_') and r0 >= 3:
+    raise Reject()  # 'w_' + '__' + child is ambiguous: the separator then also
+    #                 occurs across the join ('w___a'); not a sensible precondition
   is_leaf = None
   if cut != 0:
     is_leaf = lambda prefix, xs: len(prefix) >= cut
@@ -356,7 +358,7 @@ def obligations(tier):
                 SL.FlatState.__init__)
   if quick:
     shape = dict(r0=I(0, 3), r1=I(0, 3), s00=I(0, 4), s01=I(0, 2), s10=I(0, 2),
-                 s11=I(0, 0), k0=I(0, 3))
+                 s11=I(0, 0), k0=I(0, 4))
     np_ = 4
   else:
     sub = I(0, 4)
@@ -366,11 +368,11 @@ def obligations(tier):
   bits = I(0, 2 ** np_ - 1)
   return [
       Ob('dict_roundtrip', roundtrip,
-         dict(api=I(0, 2), sepmode=B(), **shape, keep=B(), cut=I(0, 3),
+         dict(api=I(0, 2), sepmode=I(0, 2), **shape, keep=B(), cut=I(0, 3),
               v=I(-3, 3)),
          split=('api', 'sepmode', 'r0', 'r1', 'cut'), timeout=300, funcs=F,
          bounds='depth<=3, <=2 keys/level, shape domains %r, keep_empty_nodes '
-                'both, sep None or "/", is_leaf depth cut 0(None)..3, key pool %r'
+                'both, sep None, "/" or "__", is_leaf depth cut 0(None)..3, key pool %r'
                 % ({k: repr(v) for k, v in shape.items()}, KPOOL)),
       Ob('flatten_to_sequence', seq_order, dict(**shape, v=I(-3, 3)),
          split=('r0', 'r1'), timeout=300, funcs=F, bounds='same shapes'),
